@@ -356,7 +356,9 @@ func check(prop, tier string) int {
 		engine string
 		seed   uint64
 		det    bool // determinism re-run of an earlier job
+		idx    int  // index among the runs of the same engine (enumeration classes use it)
 	}
+	perEngineIdx := map[string]int{}
 	var jobs []job
 	var wsum int
 	for _, e := range pc.Engines {
@@ -379,7 +381,8 @@ func check(prop, tier string) int {
 			}
 			k -= wgt
 		}
-		jobs = append(jobs, job{engine: eng, seed: base*1000003 + uint64(i)})
+		jobs = append(jobs, job{engine: eng, seed: base*1000003 + uint64(i), idx: perEngineIdx[eng]})
+		perEngineIdx[eng]++
 	}
 	// determinism self-test: first DetSeeds jobs are run two more times
 	nd := tc.DetSeeds
@@ -388,7 +391,7 @@ func check(prop, tier string) int {
 	}
 	for r := 0; r < 2; r++ {
 		for i := 0; i < nd; i++ {
-			jobs = append(jobs, job{engine: jobs[i].engine, seed: jobs[i].seed, det: true})
+			jobs = append(jobs, job{engine: jobs[i].engine, seed: jobs[i].seed, det: true, idx: jobs[i].idx})
 		}
 	}
 
@@ -419,7 +422,7 @@ func check(prop, tier string) int {
 				if budget > 0 && time.Since(start) > budget && !jobs[i].det && i >= nd {
 					continue
 				}
-				outcomes[i] = runOne(bin, jobs[i].engine, jobs[i].seed, tier, timeout, nil, dir, pc.MemGB)
+				outcomes[i] = runOne(bin, jobs[i].engine, jobs[i].seed, tier, timeout, []string{"VERIF_RUNIDX=" + strconv.Itoa(jobs[i].idx)}, dir, pc.MemGB)
 				ran[i] = true
 			}
 		}()
@@ -434,6 +437,7 @@ func check(prop, tier string) int {
 		v       violation
 		engine  string
 		seed    uint64
+		idx     int
 		crashed bool
 		tail    string
 	}
@@ -464,7 +468,7 @@ func check(prop, tier string) int {
 			}
 			evals++
 			if pc.PanicIsViolation {
-				viols = append(viols, viol{v: violation{Property: prop, Clause: "crash", Detail: sig}, engine: j.engine, seed: j.seed, crashed: true, tail: o.tail})
+				viols = append(viols, viol{v: violation{Property: prop, Clause: "crash", Detail: sig}, engine: j.engine, seed: j.seed, idx: j.idx, crashed: true, tail: o.tail})
 			} else {
 				troubles = append(troubles, key+": process died: "+sig+"\n"+o.tail)
 			}
@@ -505,7 +509,7 @@ func check(prop, tier string) int {
 				otherProps[v.Property]++
 				continue // reported by that property's own check
 			}
-			viols = append(viols, viol{v: v, engine: j.engine, seed: j.seed})
+			viols = append(viols, viol{v: v, engine: j.engine, seed: j.seed, idx: j.idx})
 		}
 	}
 
@@ -545,7 +549,7 @@ func check(prop, tier string) int {
 			return fresh[a].seed < fresh[b].seed
 		})
 		v := fresh[0]
-		replayPath = minimiseAndWrite(bin, prop, v.engine, v.seed, v.v, v.crashed, tier, timeout, dir, known)
+		replayPath = minimiseAndWrite(bin, prop, v.engine, v.seed, v.idx, v.v, v.crashed, tier, timeout, dir, known)
 		fmt.Printf("violation: %s clause=%s engine=%s seed=%d: %s\n", prop, v.v.Clause, v.engine, v.seed, v.v.Detail)
 		seenClause := map[string]bool{v.v.Clause: true}
 		for _, o := range fresh[1:] {
@@ -632,13 +636,13 @@ func tryPlan(bin, prop, engine string, seed uint64, plan *planT, clause string, 
 	return false, &o
 }
 
-func minimiseAndWrite(bin, prop, engine string, seed uint64, v violation, crashed bool, tier string, timeout time.Duration, dir string, known knownFile) string {
+func minimiseAndWrite(bin, prop, engine string, seed uint64, runIdx int, v violation, crashed bool, tier string, timeout time.Duration, dir string, known knownFile) string {
 	os.MkdirAll(filepath.Join(verifDir, "replays"), 0o755)
 	path := filepath.Join(verifDir, "replays", fmt.Sprintf("%s-%d.json", prop, seed))
 	// obtain the plan of the failing run
 	planOut := filepath.Join(dir, "planout.json")
 	os.Remove(planOut)
-	runOne(bin, engine, seed, tier, timeout, []string{"VERIF_PLANOUT=" + planOut}, dir, 0)
+	runOne(bin, engine, seed, tier, timeout, []string{"VERIF_PLANOUT=" + planOut, "VERIF_RUNIDX=" + strconv.Itoa(runIdx)}, dir, 0)
 	rf := replayFile{Property: prop, Engine: engine, Seed: seed, Clause: v.Clause, Detail: v.Detail}
 	pb, err := os.ReadFile(planOut)
 	if err != nil {
